@@ -12,6 +12,9 @@ Record oslice := OSlice { o_rows : list (list fl); o_closed : bool }.
 Inductive case :=
 (* Polyline(vs, is_closed=closed).sliced_by_plane(Plane(ref, normal)): rows of the returned open polyline, or the exception *)
 | CSlice (exact closed : bool) (pl : plane Q) (vs : list (vec3 Q)) (o : result oslice)
+(* the same for a small scene translated far from the origin with exact coordinates and exact signed distances:
+   rows are compared relative to `feat` = scene size + a few ulps of the coordinate magnitude, not to the magnitude *)
+| CSliceFeat (feat : Q) (closed : bool) (pl : plane Q) (vs : list (vec3 Q)) (o : result oslice)
 (* intersect_segment_with_plane(start, seg, ref, normal) for one segment: the returned row *)
 | CXsect (start seg ref n : vec3 Q) (o : list fl).
 
@@ -44,6 +47,13 @@ Definition sane (o : result oslice) : bool :=
   | Raise e => exn_eqb e ValueError
   end.
 
+(* absolute closeness tol * feat (feature-relative cases) *)
+Definition row_close_feat (feat : Q) (r : xrow Q) (o : list fl) : bool :=
+  match r with
+  | XPt v => all2 (fun m ob => match ob with Fin q => Qle_bool (Qabs (m - q)) (tol * feat) | _ => false end) (vlist v) o
+  | XNan => false
+  end.
+
 Definition check_case (c : case) : bool :=
   match c with
   | CSlice exact closed pl vs o =>
@@ -52,6 +62,9 @@ Definition check_case (c : case) : bool :=
       then res_agree (fun r ob => all2 (row_close m) (s_rows r) (o_rows ob) && Bool.eqb (s_closed r) (o_closed ob))
                      (sliced_polyline QOps pl (MkPolyline vs closed)) o
       else sane o   (* some side is within rounding: only what does not depend on the classification *)
+  | CSliceFeat feat closed pl vs o =>
+      res_agree (fun r ob => all2 (row_close_feat feat) (s_rows r) (o_rows ob) && Bool.eqb (s_closed r) (o_closed ob))
+                (sliced_polyline QOps pl (MkPolyline vs closed)) o
   | CXsect start seg ref n o =>
       let m := mag_of [start; seg; ref] 0 in
       row_close m (intersect_segment_with_plane QOps start seg ref n) o
